@@ -300,8 +300,9 @@ func runC11(c *Ctx) {
 			}
 		}
 	}
+	runBigC11(c)
 	c.Meta(map[string]interface{}{
-		"rule":    "(live handles: every history of depth <= 3 (thorough 4) over 6 letters incl. the virtual-time tick, under 3 asynchronous and 1 cached configuration, then Repair on the live handle holding pending writes: nothing lost, reads unchanged, Control quiet after Close and Open.) for every base database (histories listed in evidence; closed, so async writes are on disk) and configuration: every assignment of {intact, file removed, index entry removed from object-ids and every field index by editing schema.json as JSON, both} to each stored object x {0,1,2} extra well-formed object files with fresh ids x {schema present, removed} (4^n*6 cases per base, exhaustive). Oracle: first load / Control report corruption iff indexed ids != file ids (no false positive on the healthy case); after (Create if needed and) Repair: Control = nil, index agrees with files decoded without sod code through every indexed field, every object file byte-identical (none modified, none deleted). Non-trivial = cases with at least one fault.",
+		"rule":    "(big collections: 999 objects (thorough 63..4095, sizes around powers of two and multiples of 1000): no alarm on the intact collection from the live handle and from a new one; one file removed: detected at load, Repair converges.) (live handles: every history of depth <= 3 (thorough 4) over 6 letters incl. the virtual-time tick, under 3 asynchronous and 1 cached configuration, then Repair on the live handle holding pending writes: nothing lost, reads unchanged, Control quiet after Close and Open.) for every base database (histories listed in evidence; closed, so async writes are on disk) and configuration: every assignment of {intact, file removed, index entry removed from object-ids and every field index by editing schema.json as JSON, both} to each stored object x {0,1,2} extra well-formed object files with fresh ids x {schema present, removed} (4^n*6 cases per base, exhaustive). Oracle: first load / Control report corruption iff indexed ids != file ids (no false positive on the healthy case); after (Create if needed and) Repair: Control = nil, index agrees with files decoded without sod code through every indexed field, every object file byte-identical (none modified, none deleted). Non-trivial = cases with at least one fault.",
 		"configs": cfgs, "bases": len(bases),
 	})
 }
